@@ -617,3 +617,62 @@ def c06_e2e(R):
                       """, src=src, why=why))
     if not bad:
         R.bounded("C06.e2e", GW + "::GenerateWasmVisitor", True, n, detail=f"{n} programs: refused, or valid and agreeing with the VM")
+
+
+@family("C06.pre", props=["C06", "C09"], functions=["nsl.types::ResolveBinaryExpressionType", "nsl.passes.AddImplicitCasts::AddImplicitCastVisitor.v_BinaryExpression", "nsl.passes.LowerToIR::LowerToIRVisitor.v_BinaryExpression"],
+        assumptions=["scalar operand types enumerated completely: {int, uint, float} x {int, uint, float} x the 13 binary operators, both optimisation settings"])
+def c06_pre(R):
+    """Precondition of the per-handler simulation C06.sem (which is stated for operands of ONE type): in every compiled module both operands of a
+    scalar binary instruction have the same IR type -- a mixed pair went through the implicit cast to the common type (the WebAssembly opcode,
+    including its signedness suffix, is selected from a single operand type)."""
+    from .vm_c import NSL_OP, NSLT
+    from . import types_c as tc
+    ir = IR()
+    for opn, sp in NSL_OP.items():
+        for k0, k1 in itertools.product("iuf", repeat=2):
+            for opt in (False, True):
+                src = f"export function f({NSLT[k0]} a, {NSLT[k1]} b) -> float {{ float r; r = (a {sp} b); return r; }}"
+                r, exc = tc.compile_quiet(src, {"optimize": True} if opt else {})
+                oid = f"C06.pre[{opn},{NSLT[k0]},{NSLT[k1]}{',optimize' if opt else ''}]"
+                if r is None:
+                    R.ok(oid, "nsl.types::ResolveBinaryExpressionType", detail="rejected by the front end")
+                    continue
+                bins = [i for f in r.IRModule.Functions.values() for bb in f.BasicBlocks for i in bb.Instructions if isinstance(i, ir.BinaryInstruction)]
+                bad = None
+                for b in bins:
+                    refs = list(b.Uses)
+                    vals = b._BinaryInstruction__values
+                    t0, t1 = vals[0].Type, vals[1].Type
+                    same = type(t0) is type(t1) and getattr(t0, "Unsigned", None) == getattr(t1, "Unsigned", None)
+                    if not same:
+                        bad = (str(t0), str(t1))
+                rp = None
+                if bad:
+                    iscmp = opn.startswith("CMP") or opn.startswith("LG")
+                    rp = script("""
+                        import io, contextlib
+                        from nsl import Compiler, LinearIR, VM
+                        import wasmtime
+                        src = 'export function f(%s a, %s b) -> %s { return (a %s b); }' % ({{t0}}, {{t1}}, {{rt}}, {{op}})
+                        bad = False
+                        try:
+                            with contextlib.redirect_stdout(io.StringIO()):
+                                r = Compiler.Compiler().Compile(src, {'wasm': True, 'optimize': True})
+                            out = io.BytesIO(); r.WasmModule.WriteTo(out)
+                        except BaseException as e:
+                            print(src, 'refused:', type(e).__name__, e); raise SystemExit
+                        l = LinearIR.Linker(); l.AddModule(r.IRModule)
+                        for a, b in ((5, -1), (-1, 5), (7, 2), (-7, 2), (3, 3)):
+                            if ({{t0}} == 'uint' and a < 0) or ({{t1}} == 'uint' and b < 0): continue
+                            want = VM.VirtualMachine(l.Link()).Invoke('f', a=a, b=b)
+                            try:
+                                st = wasmtime.Store(); inst = wasmtime.Instance(st, wasmtime.Module(st.engine, out.getvalue()), [])
+                                got = inst.exports(st)['f'](st, a, b)
+                            except Exception as e:
+                                got = 'wasmtime: ' + str(e)[:160]
+                            print(src, 'f(%r, %r): VM' % (a, b), want, 'wasm', got)
+                            bad = bad or got != want
+                        if bad: print('REPLAY-CONFIRMED')
+                        """, t0=NSLT[k0], t1=NSLT[k1], rt="int" if (iscmp or "f" not in (k0, k1)) else "float", op=sp)
+                R.check(oid, "nsl.passes.AddImplicitCasts::AddImplicitCastVisitor.v_BinaryExpression", bins and bad is None,
+                        detail=f"{src}: the binary instruction has operands of types {bad}" if bad else f"{src}: no binary instruction emitted", replay=rp)
